@@ -182,6 +182,13 @@ def sem_verdict(src, run):
     return "inconclusive" if is_prefix(ro, so) else "differ"
 
 
+# programs whose s-expression is an equivalent program rather than the statement the compiler sees
+# (switch as if/else chain, `reg_x := e`, corpus cases marked "exec_only"): tied through execution,
+# resources and machine only, never through the assembly text
+NOTEXT_TAGS = ("switch", "define-reg", "exec-only")
+REFUSED = "!refused:already-defined"
+
+
 def judge_case(c):
     """-> list of (kind, detail).  kinds: hang, nondeterministic-output, faulty, text, requirements,
     semantics, model-self-check"""
@@ -196,6 +203,19 @@ def judge_case(c):
             fails.append(("faulty", {"sched": s.get("sched"), "exit": ex}))
         if s.get("same") == "0":
             fails.append(("nondeterministic-output", {"sched": s.get("sched")}))
+    if c.m == REFUSED or "redeclare" in c.tags:
+        # `:=` of a name already declared in the same block: the model refuses it (redeclProg), the
+        # generator built it to be refused, and the compiler has to refuse it under every schedule
+        # ("Already defined variable") — no crash, no hang, no code
+        fails = [f for f in fails if f[0] != "faulty"]
+        if c.m != REFUSED:
+            fails.append(("model-self-check", {"a program generated with a same-scope := is not refused by the model": c.m}))
+        exits = sorted({s.get("exit", "") for s in c.isch})
+        if not exits or not all(e.startswith("faulty") and "Already_defined_variable" in e for e in exits):
+            if not any(k in ("hang", "impl-panic") for k, _ in fails):
+                fails.append(("accepts-redeclaration", {"model": "refused: already defined", "exits": exits[:4],
+                                                        "assembly": (c.impl or "")[:400]}))
+        return fails
     fails += resource_fails(c)
     if c.m is None or c.m.startswith("!"):
         fails.append(("model-self-check", {"model": c.m}))
@@ -212,7 +232,10 @@ def judge_case(c):
         fails.append(("model-self-check", {"src": c.src, "mrun": c.mrun}))
     if c.impl is None:
         return fails
-    if c.impl != c.m:
+    # programs with a `switch` are written for the model as the equivalent if/else chain: their assembly
+    # is not expected to be the model's, they are tied through execution (and resources / machine) only
+    notext = any(t in c.tags for t in NOTEXT_TAGS)
+    if c.impl != c.m and not notext:
         il, ml = c.impl.split(";"), c.m.split(";")
         k = next((i for i in range(min(len(il), len(ml))) if il[i] != ml[i]), min(len(il), len(ml)))
         fails.append(("text", {"first_diff_line": k, "impl": il[k:k + 3], "model": ml[k:k + 3],
@@ -233,7 +256,7 @@ def judge_case(c):
             exp = {"regs": c.mr.get("regs"), "ram": c.mr.get("ram"), "rom": c.mr.get("rom"),
                    "ops": c.mr.get("ops"), "ins": c.meta.get("nin"), "outs": c.meta.get("nout")}
             got = {k: rq.get(k) for k in exp}
-            if c.impl == c.m and exp != got:
+            if c.impl == c.m and exp != got and not notext:
                 fails.append(("requirements", {"sched": sched, "model": exp, "impl": got}))
                 break
     return fails
@@ -382,9 +405,28 @@ def run_program_case(hbin, case, workdir, cid="900000"):
     salt = int(case.get("salt", 0))
     hl = run_harness(hbin, ["compilefile", src, cid, str(case["w"]), str(salt), str(case.get("proc", 0))])
     prog = "PROG %s w=%s fuel=10 steps=6000 salt=%d decls=%s body=%s" % (cid, case["w"], salt, case["decls"], case["body"])
-    hl = [prog, "TAG %s corpus n=0 nin=%s nout=%s" % (cid, case.get("nin", 0), case.get("nout", 1))] + hl
+    hl = [prog, "TAG %s corpus%s n=0 nin=%s nout=%s" % (cid, ",exec-only" if case.get("exec_only") else "",
+                                                       case.get("nin", 0), case.get("nout", 1))] + hl
     ol = run_oracle([l for l in hl if l.startswith("PROG") or l.startswith("IMPL ")])
     return collect_cases(hl, ol)[cid]
+
+
+def corpus_program(hbin, case, workdir, cid):
+    """one corpus program -> (c or None, extra); extra = failures judge_case does not see: the compiler
+    crashing the harness process (Var_assigner panics in its own goroutine), goEval disagreeing with
+    the outputs of the Go program recorded in the case ("expect_outs", port:value,...)"""
+    extra = []
+    try:
+        c = run_program_case(hbin, case, workdir, cid)
+    except RuntimeError as e:
+        return None, [("impl-panic", {"harness_process": str(e)[-700:]})]
+    if case.get("expect") == "rejected" and c.m != REFUSED:
+        extra.append(("model-self-check", {"the case expects a refusal, the model says": c.m}))
+    if "expect_outs" in case and c.src is not None:
+        want, got = parse_outs(case["expect_outs"]), parse_outs(c.src.get("outs", ""))
+        if got != want:
+            extra.append(("model-self-check", {"go_outputs": want, "goEval": c.src}))
+    return c, extra
 
 
 def judge_proto(pm, pimpls):
@@ -441,6 +483,30 @@ def private_cli(workdir):
     raise vlib.BuildError("cmd/bondgo binary disappeared while copying: %s" % last)
 
 
+def judge_chan(line, locmap, src):
+    """CHAN line -> (stats-ok, list of (kind, obj))"""
+    fs = line.split(" ")
+    d = kvs(fs[2:])
+    case = {"kind": "chanprog", "go": src, "w": d.get("w"), "srctopo": d.get("srctopo"),
+            "expected": d.get("expected"), "locmap": locmap}
+    res = []
+    ex = d.get("exit", "")
+    if ex != "ok":
+        kind = "hang" if ex.startswith("hang") or ex.startswith("timeout") else ("impl-panic" if ex.startswith("panic") else "faulty")
+        res.append((kind, {"property": PROP, "kind": kind, "go": src, "detail": {"exit": ex}, "case": case}))
+        return res
+    if d.get("srctopo") != d.get("reqtopo"):
+        res.append(("channel-topology", {"property": PROP, "kind": "channel-topology", "go": src, "case": case,
+                                         "detail": {"topology_the_source_implies": d.get("srctopo"),
+                                                    "topology_the_compiler_requests": d.get("reqtopo"),
+                                                    "format": "global channel id : processors attached (0 = main, g+1 = g-th go statement)"}}))
+    if d.get("expected") != d.get("got"):
+        res.append(("semantics", {"property": PROP, "kind": "semantics", "go": src, "case": case,
+                                  "detail": {"go_semantics_outputs_of_main": d.get("expected"),
+                                             "emitted_code_on_the_requested_topology": d.get("got")}}))
+    return res
+
+
 def run(rep):
     thorough = rep.tier == "thorough"
     t_phase = {"start": time.monotonic()}
@@ -491,7 +557,16 @@ def run(rep):
 
         # ---- 1. corpus
         for cidx, (name, case) in enumerate(corpus_cases()):
-            if case.get("kind") == "proto":
+            if case.get("kind") == "chanprog":
+                srcp = os.path.join(workdir, "corpus-chan.go")
+                open(srcp, "w").write(case["go"])
+                hl = run_harness(hbin, ["chanfile", srcp, "0", str(case["w"]), case["srctopo"], case["expected"], case["locmap"]])
+                for l in hl:
+                    if l.startswith("CHAN "):
+                        stats["channel_programs"] = stats.get("channel_programs", 0) + 1
+                        for kind, obj in judge_chan(l, case["locmap"], case["go"]):
+                            add_finding(None, kind, obj)
+            elif case.get("kind") == "proto":
                 hl = run_harness(hbin, ["protoreplay", case["acts"]])
                 ol = run_oracle([l for l in hl if l.startswith("PROTO")])
                 pm = next((l for l in ol if l.startswith("PM ")), "PM 0")
@@ -499,9 +574,13 @@ def run(rep):
                     classify_proto(add_finding, kind, det, case["acts"])
                 stats["proto_scenarios"] += 1
             else:
-                c = run_program_case(hbin, case, workdir, str(900000 + cidx))   # the harness takes numeric ids
+                c, extra = corpus_program(hbin, case, workdir, str(900000 + cidx))   # the harness takes numeric ids
                 stats["programs"] += 1
-                handle_case(c, case["go"], case, None, add_finding, stats, distinct)
+                for kind, det in extra:
+                    add_finding(None, kind, {"property": PROP, "kind": kind, "go": case["go"], "w": case["w"],
+                                             "detail": det, "case": case})
+                if c is not None:
+                    handle_case(c, case["go"], case, None, add_finding, stats, distinct)
 
         # ---- 2. protocol scenarios
         n_proto = 400 if thorough else 60
@@ -528,7 +607,14 @@ def run(rep):
         n_prog = 600 if thorough else 75
         gendir = os.path.join(workdir, "gen")
         os.makedirs(gendir, exist_ok=True)
-        hl = run_harness(hbin, ["gen", str(n_prog), gendir, "30"], timeout=3000)
+        try:
+            hl = run_harness(hbin, ["gen", str(n_prog), gendir, "30"], timeout=3000)
+        except RuntimeError as e:
+            # the compiler took the harness process down (a panic in Var_assigner / Usage_Monitor cannot be
+            # recovered in-process): reported, the remaining phases still run
+            hl = []
+            add_finding(None, "impl-panic", {"property": PROP, "kind": "impl-panic", "go": "",
+                                             "detail": {"harness_process_died_in": "generated programs", "stderr": str(e)[-1500:]}})
         ol = run_oracle([l for l in hl if l.startswith("PROG") or l.startswith("IMPL ")])
         cases = collect_cases(hl, ol)
         stats["generator_skipped"] = sum(1 for l in hl if l.startswith("GENBUG"))
@@ -545,6 +631,31 @@ def run(rep):
             if len(samples) < 4 and c.impl is not None and int(cid) < 100000:
                 samples.append({"program": src, "sexpr": (c.prog or "").split(" body=", 1)[-1],
                                 "assembly": c.impl, "goEval": c.src, "machine": c.irun})
+
+        # ---- 3b. several channels, several goroutines: requested topology and execution on it
+        t_phase["programs"] = time.monotonic()
+        chdir = os.path.join(workdir, "chan")
+        os.makedirs(chdir, exist_ok=True)
+        n_chan = 200 if thorough else 30
+        hl = run_harness(hbin, ["chan", str(n_chan), chdir])
+        locmaps = {l.split(" ")[1]: kvs(l.split(" ")[2:]).get("locmap", "") for l in hl if l.startswith("CHANSRC ")}
+        for l in hl:
+            if not l.startswith("CHAN "):
+                continue
+            cid = l.split(" ")[1]
+            try:
+                csrc = open(os.path.join(chdir, "ch%s.go" % cid)).read()
+            except OSError:
+                csrc = ""
+            stats["channel_programs"] = stats.get("channel_programs", 0) + 1
+            fs_ = judge_chan(l, locmaps.get(cid, ""), csrc)
+            if not fs_:
+                stats["channel_programs_ok"] = stats.get("channel_programs_ok", 0) + 1
+                distinct.add(("chan", csrc))
+            for kind, obj in fs_:
+                add_finding(None, kind, obj)
+            if cid == "0":
+                samples.append({"channel_program": csrc, "result": l})
 
         # je stub: a concrete program whose compiled code behaves differently on a machine with the
         # real (no-op) je
@@ -567,7 +678,7 @@ def run(rep):
                             "machine_with_intended_je": wit.irun})
             add_finding(KF_JE, "je-stub", obj)
 
-        t_phase["programs"] = time.monotonic()
+        t_phase["channels"] = time.monotonic()
         # ---- 4. the real CLI
         ids = [cid for cid in sorted(cases, key=lambda x: int(x)) if cases[cid].impl is not None and int(cid) < 100000
                and "go-stmt" not in cases[cid].tags]   # -save-assembly writes processor 0 only; pairs are checked in-process
@@ -596,7 +707,7 @@ def run(rep):
     ks = list(t_phase)
     rep.coverage["phase_seconds"] = {ks[i]: round(t_phase[ks[i]] - t_phase[ks[i - 1]], 1) for i in range(1, len(ks))}
     rep.coverage.update({
-        "evaluations": stats["programs"] + stats["proto_scenarios"],
+        "evaluations": stats["programs"] + stats["proto_scenarios"] + stats.get("channel_programs", 0),
         "distinct_nontrivial": len(distinct),
         "rule": "programs: seeded generator over the modelled subset (3..30 statements, nesting <= 3, register sizes "
                 "8/16/32/64, 1..4 variables, 0..2 inputs, 1..2 outputs); non-trivial = the real compiler produced "
@@ -615,7 +726,7 @@ def run(rep):
 
     # ---- outcome: one report per finding id / kind, preferring a case with a concrete failing input
     prio = {"incdec-scope": 0, "semantics": 0, "hang": 0, "resources": 0, "machine": 0}
-    findings.sort(key=lambda f: (prio.get(f[1], 1), len(f[2].get("go") or f[2].get("acts") or "")))
+    findings.sort(key=lambda f: (prio.get(f[1], 1), len(f[2].get("go") or f[2].get("acts") or "") or 10 ** 9))
     reported = set()
     for kfid, kind, obj in findings:
         if kfid is not None and kfid in known:
@@ -632,7 +743,8 @@ def run(rep):
         if kfid is not None:
             obj["proposed_known_finding_id"] = kfid
         real = kind in ("hang", "semantics", "impl-panic", "nondeterministic-output", "je-stub", "cli-error",
-                        "incdec-scope", "faulty", "resources", "machine", "rom-end-address")
+                        "incdec-scope", "faulty", "resources", "machine", "rom-end-address", "channel-topology",
+                        "accepts-redeclaration")
         if real:
             rep.violation(obj, tag="finding=" + (kfid or kind))
         else:
@@ -676,6 +788,8 @@ def handle_case(c, src, corpus_case, twin, add_finding, stats, distinct):
         distinct.add(("prog", c.impl))
         if c.impl == c.m:
             stats["text_equal"] += 1
+        elif any(t in c.tags for t in NOTEXT_TAGS):
+            stats["execution_only"] = stats.get("execution_only", 0) + 1
         if c.irun is not None and c.src is not None:
             v = sem_verdict(c.src, c.irun)
             if v == "ok":
@@ -753,6 +867,15 @@ def replay(rep, path):
         for kind, det in judge_proto(pm, [l for l in hl if l.startswith("PIMPL")]):
             classify_proto(add_finding, kind, det, case["acts"])
         rep.coverage.update({"evaluations": 1, "samples": [case, hl]})
+    elif case.get("kind") == "chanprog":
+        srcp = os.path.join(workdir, "replay-chan.go")
+        open(srcp, "w").write(case["go"])
+        hl = run_harness(hbin, ["chanfile", srcp, "0", str(case["w"]), case["srctopo"], case["expected"], case["locmap"]])
+        for l in hl:
+            if l.startswith("CHAN "):
+                for kind, o in judge_chan(l, case["locmap"], case["go"]):
+                    add_finding(None, kind, o)
+        rep.coverage.update({"evaluations": 1, "samples": [{"go": case["go"], "result": hl}]})
     elif obj.get("kind") == "je-stub" and case.get("kind") == "program":
         je_stub = any(l.strip() == "JE stub=1" for l in run_harness(hbin, ["probeje"]))
         c = run_program_case(hbin, case, workdir, "999999")
@@ -764,8 +887,14 @@ def replay(rep, path):
     elif case.get("kind") == "program" or obj.get("go"):
         if not case:
             case = {"kind": "program", "w": obj.get("w", 8), "decls": "-", "body": "skip", "go": obj["go"]}
-        c = run_program_case(hbin, case, workdir, "999999")
-        handle_case(c, case["go"], case, None, add_finding, stats, distinct)
+        c, extra = corpus_program(hbin, case, workdir, "999999")
+        for kind, det in extra:
+            add_finding(None, kind, {"property": PROP, "kind": kind, "go": case["go"], "w": case.get("w"),
+                                     "detail": det, "case": case})
+        if c is None:
+            c = Case("999999")
+        else:
+            handle_case(c, case["go"], case, None, add_finding, stats, distinct)
         if obj.get("VERIF_SCHED_SEED") is not None:
             bondgo = private_cli(workdir)
             srcp = os.path.join(workdir, "p999999.go")
@@ -785,5 +914,5 @@ def replay(rep, path):
             continue
         seen.add(kfid or kind)
         real = kind in ("hang", "semantics", "impl-panic", "nondeterministic-output", "incdec-scope", "faulty", "je-stub",
-                        "resources", "machine", "rom-end-address")
+                        "resources", "machine", "rom-end-address", "channel-topology", "accepts-redeclaration")
         rep.violation(o, no_failing_input=not real, tag="finding=" + (kfid or kind))
